@@ -1,4 +1,92 @@
 package datapath
 
-// restarts is filled in by the crash/restart driver (C03).
-func (r *runner) restarts() {}
+import (
+	"sort"
+	"strings"
+	"time"
+
+	"verifharness/store"
+)
+
+// restarts implements the crash/restart part of C03: for (up to sc.Restarts) distinct durable
+// snapshots of the finished run - every crash instant between two commits is equivalent for a
+// restart - fresh services are built on a copy of the snapshot, initialised the way the runtime
+// does it (running -> system-stopped -> restarted by lifecycle Init), and the restarted run is
+// recorded: Restore (what was durable at the crash instant), Open(position), the resumed flow.
+func (r *runner) restarts() {
+	snaps := r.db.Snapshots()
+	type cand struct {
+		snap   store.Snapshot
+		stored map[string]int
+		status int
+		key    string
+	}
+	var cands []cand
+	seen := map[string]bool{}
+	for _, sn := range snaps {
+		c := cand{snap: sn, stored: map[string]int{}}
+		var ks []string
+		for k, v := range sn.Values {
+			kv := store.Describe(k, v)
+			m := map[string]any{}
+			for i := 0; i+1 < len(kv); i += 2 {
+				m[kv[i].(string)] = kv[i+1]
+			}
+			switch {
+			case strings.HasPrefix(k, "connector:instance:") && m["ctype"] == 1:
+				c.stored[m["id"].(string)] = m["idx"].(int)
+			case strings.HasPrefix(k, "pipeline:instance:"):
+				c.status, _ = m["status"].(int)
+			}
+		}
+		for s, i := range c.stored {
+			ks = append(ks, s+"="+string(rune('0'+i%10))+string(rune('0'+i/10)))
+		}
+		sort.Strings(ks)
+		c.key = strings.Join(ks, ",") + "|" + string(rune('0'+c.status))
+		if len(c.stored) == 0 || seen[c.key] {
+			continue
+		}
+		seen[c.key] = true
+		cands = append(cands, c)
+	}
+	// pick evenly, always including the first running snapshot and the last one
+	n := r.sc.Restarts
+	var picked []cand
+	if len(cands) <= n {
+		picked = cands
+	} else {
+		for i := 0; i < n; i++ {
+			picked = append(picked, cands[i*(len(cands)-1)/(n-1)])
+		}
+	}
+	for _, c := range picked {
+		r.log.Add("Restore", "snap", c.snap.N, "stored", c.stored, "status", c.status)
+		db2 := store.FromSnapshot(r.log, c.snap.Values)
+		eng2 := r.newEngine(db2)
+		r.ungateAll()
+		if err := eng2.InitServices(r.ctx); err != nil {
+			r.log.Add("HarnessError", "what", "restart init: "+err.Error())
+			return
+		}
+		old := r.eng
+		r.eng = eng2
+		r.db = db2
+		r.mu.Lock()
+		r.calls = nil
+		r.mu.Unlock()
+		ic := r.async("Init", func() error { return eng2.LC.Init(r.ctx) })
+		if !waitCall(ic, hangBound) {
+			r.log.Add("Hang", "call", "Init")
+		}
+		if st := r.pipelineStatus(); st != "Running" {
+			// the pipeline was not running at the crash instant: start it the way a user would
+			sc := r.async("Start", func() error { return eng2.LC.Start(r.ctx, PipelineID) })
+			waitCall(sc, hangBound)
+		}
+		r.started = true
+		r.log.Quiesce(5*time.Millisecond, 3*time.Second)
+		r.finalize()
+		r.eng = old
+	}
+}
